@@ -65,11 +65,11 @@ def lexLe : List Key → Row → Row → Bool
     | .eq => lexLe ks r s
 
 /-- Insertion sort (structural, so that concrete instances evaluate in the kernel). -/
-def insertRow (le : Row → Row → Bool) (a : Row) : List Row → List Row
+def insertRow {α : Type} (le : α → α → Bool) (a : α) : List α → List α
   | [] => [a]
   | b :: l => if le a b then a :: b :: l else b :: insertRow le a l
 
-def sortRows (le : Row → Row → Bool) : List Row → List Row
+def sortRows {α : Type} (le : α → α → Bool) : List α → List α
   | [] => []
   | a :: l => insertRow le a (sortRows le l)
 
